@@ -46,7 +46,7 @@ def gen_crowded(rng):
     dests = [[0, 0]] + [[rng.randint(-4, 4), rng.randint(-4, 4)] for _ in range(rng.randint(0, 2))]
     dests = [list(x) for x in {tuple(d) for d in dests}]
     frames.append(np.array(dests + far, dtype=float))
-    return dict(frames=frames, sr=sr, memory=mem, max_size=30, strategy=rng.choice(['recursive', 'nonrecursive']), ndim=2)
+    return dict(frames=frames, sr=sr, memory=mem, max_size=12, strategy=rng.choice(['recursive', 'nonrecursive']), ndim=2)
 
 
 def gen_case(rng, tier):
@@ -58,7 +58,7 @@ def gen_case(rng, tier):
     ndim = fr[0].shape[1]
     sr = linkgen.gen_range(rng, ndim, quarter=q)
     mem = rng.choice([0, 0, 1, 2, 3])
-    ms = rng.choice([30, 30, 30, 3, 4, 6])
+    ms = rng.choice([linkgen.LIMIT, linkgen.LIMIT, linkgen.LIMIT, 3, 4, 6])
     strat = rng.choice(STRATS)
     return dict(frames=fr, sr=sr, memory=mem, max_size=ms, strategy=strat, ndim=ndim)
 
